@@ -94,7 +94,7 @@ fn exprs_of(rules: &[AstRule]) -> String {
     rules.iter().map(|r| format!("{} = {:?}{{ {} }}", r.name, r.ty, r.expr)).collect::<Vec<_>>().join("\n")
 }
 
-fn check_grammar(ctx: &mut Ctx, g: &Gram, k: usize) -> Result<(), Fail> {
+pub fn check_grammar(ctx: &mut Ctx, g: &Gram, k: usize) -> Result<(), Fail> {
     let Some(p) = prepare(ctx, g)? else { return Ok(()) };
     let alpha = pick_alphabet(&p.cg, 5);
     let inputs = enumerate(&alpha, k);
